@@ -631,12 +631,13 @@ class SymEval:
             else:
                 e = s["e"]
                 if e.get("k") in ("assign", "assignop"):
-                    tgt = strip(e["l"])
-                    if tgt.get("k") == "path" and tgt.get("res") == "local":
+                    from .facts import plain_local
+                    nm = plain_local(e["l"])
+                    if nm is not None:
                         r = self.eval(e["r"], env)
                         if e["k"] == "assignop":
                             r = self.arith(e["op"].replace("Assign", ""), self.eval(e["l"], env), r)
-                        env[tgt["name"]] = r
+                        env[nm] = r
                         continue
                 if is_assert(e):
                     self.asserts.append(e)
